@@ -9,5 +9,7 @@ pub mod quic;
 pub mod server;
 pub mod sink;
 pub mod topic;
+#[cfg(selium_verif)]
+pub mod verif;
 
 type BoxSink<T, E> = Pin<Box<dyn Sink<T, Error = E> + Send>>;
